@@ -95,6 +95,30 @@ theorem C03_chain (s : Sbx) (hs : C04.Sbx.wf s) (ops : List POp) (p q : Nat) (hp
       simp only [runOk, hst] at hok
       exact ih p1 (C03_step s hs p p1 op hp hok.1 hst) hok.2 h
 
+/-- Allocation: whatever the allocator inside the sandbox returns and however the backend translates
+it, `malloc_in_sandbox` yields null or an address whose first and last element both lie inside the
+region -- anything else aborts. -/
+theorem C03_malloc (s : Sbx) (hs : C04.Sbx.wf s) (v count size p : Nat) (h : mallocIn s v count size = some p) :
+    p = 0 ∨ (s.region.contains p ∧ s.region.contains ((p + (count - 1) * size) % W64)) := by
+  unfold mallocIn at h
+  by_cases hc : count = 0
+  · simp [hc] at h
+  · by_cases hv : v = 0
+    · simp [hc, hv] at h; exact Or.inl h.symm
+    · simp only [hc, hv, if_false] at h
+      by_cases hin : s.region.contains (s.region.base + v)
+      · simp only [hin, not_true_eq_false, if_false] at h
+        split at h
+        · rename_i hsame
+          cases h
+          exact Or.inr ⟨hin, (sameSbx_iff_contains s.region hs.1 _ _ hin).1 hsame⟩
+        · cases h
+      · simp [hin] at h
+
+example : mallocIn ⟨⟨16, 0x6a0000000000⟩, 4⟩ 0x8000 4 4 = some 0x6a0000008000 := by decide
+example : mallocIn ⟨⟨16, 0x6a0000000000⟩, 4⟩ 0x10040 4 4 = none := by decide   -- wholly outside: refused
+example : mallocIn ⟨⟨16, 0x6a0000000000⟩, 4⟩ 0xfff8 4 4 = none := by decide    -- straddles the end: refused
+
 /-- Full statement without the side condition on designation steps. -/
 def C03_full : Prop :=
   ∀ (s : Sbx), C04.Sbx.wf s → ∀ (ops : List POp) (p q : Nat), Inv s.region p →
